@@ -35,10 +35,14 @@ def explore(expand_fn, initial_canon, max_depth, max_states=None, time_budget=No
     t0 = time.time()
     depth = 0
     while frontier and depth < max_depth:
-        jobs = [(frontier[i:i + chunk], extra) for i in range(0, len(frontier), chunk)]
-        outs = pool.pmap(expand_fn, jobs, hermetic=False)   # every history is replayed on fresh objects anyway
+        # Every history is replayed on fresh objects, but the code under test may keep state outside those objects (class or
+        # module level).  Jobs therefore run in a fresh interpreter each, and a violation carries its job: re-executing the job in
+        # another fresh process replays exactly the same sequence of histories (cli --rejob).
+        per = max(chunk, min(256, -(-len(frontier) // (pool.NPROC * 2))))
+        jobs = [(tuple(frontier[i:i + per]), extra) for i in range(0, len(frontier), per)]
+        outs = pool.pmap(expand_fn, jobs, hermetic=True)
         nxt = []
-        for out in outs:
+        for job, out in zip(jobs, outs):
             for hist, succs in out:
                 for ev, canon, viol, terminal, outcome in succs:
                     res.transitions += 1
@@ -48,6 +52,7 @@ def explore(expand_fn, initial_canon, max_depth, max_states=None, time_budget=No
                         if res.counts[viol["key"]] <= 2:
                             viol = dict(viol)
                             viol["history"] = list(hist) + [ev]
+                            viol["job"] = {"fn": f"{expand_fn.__module__}:{expand_fn.__name__}", "arg": job}
                             res.violations.append(viol)
                         continue
                     if terminal:
